@@ -246,6 +246,10 @@ class MCNP_Parser(Parser, metaclass=MetaBuilder):
             list_node.append(p[0])
             list_node.append(short_cut)
             return list_node
+        # a third, fourth, ... shortcut in a row: keep the ones already collected
+        if type(p[0]) == syntax_node.ListNode:
+            p[0].append(short_cut)
+            return p[0]
         return short_cut
 
     @_("shortcut_sequence", "shortcut_sequence padding")
@@ -258,7 +262,11 @@ class MCNP_Parser(Parser, metaclass=MetaBuilder):
         """
         sequence = p.shortcut_sequence
         if len(p) == 2:
-            sequence.end_padding = p.padding
+            if type(sequence) == syntax_node.ListNode:
+                # a run of shortcuts: the padding belongs to the last one
+                sequence.nodes[-1].end_padding = p.padding
+            else:
+                sequence.end_padding = p.padding
         return sequence
 
     @_("NULL", "NULL padding")
